@@ -15,7 +15,7 @@ import re
 HERE = os.path.dirname(os.path.dirname(os.path.abspath(__file__)))
 res = {}
 for lf in sorted(glob.glob(os.path.join(HERE, 'tools', 'sweeplogs', '*.log'))):
-    m = re.fullmatch(r'(C\d\d[a-f]|D\d)-(C\d\d)\.log', os.path.basename(lf))
+    m = re.fullmatch(r'(C\d\d[a-g]|D\d)-(C\d\d)\.log', os.path.basename(lf))
     if not m:
         continue
     seed, chk = m.groups()
